@@ -397,7 +397,9 @@ pub fn tokens(e: &Expr, mode: Mode, d: Option<&mut Dec>) -> Option<Vec<Tok>> {
 // ------------------------------------------------------------------------------------------
 // layout
 
-const SEPARATORS: [&str; 24] = [
+const SEPARATORS: [&str; 28] = [
+    // a comment ends at a line break and nowhere else (U+2028, U+2029, U+0085, form feed are not line breaks)
+    "// c\u{2028}+ x\n", "// c\u{2029}y\n", "// \u{85} z \u{c} w\n", "//\u{2028}\r\n",
     // comments are free text: brackets, quotes and comment-like marks inside them mean nothing
     "// 1) first (see below\n", "// \"\n", "// ]}\n", "// it's /* not */ special\n", "// */\r\n", "//)\n",
     " ", "", " ", "\n", "\t", "  ", "\r\n", " \n ", "\u{a0}", "\u{2003}", "\u{85}", "\u{c}", "// c\n", " // if then (\n\t",
